@@ -2,7 +2,7 @@
 from ..core import graph, Call, peel, leaves, show, N
 from ..util import *
 from ..atomic import atomic_method
-from .cb_common import CB, CRATE, STATE_ENUM, check_no_evict_in_half_open, check_window_dispatch
+from .cb_common import CB, CRATE, STATE_ENUM, check_no_evict_in_half_open, check_window_dispatch, check_stats_partition
 
 EXPLANATION = (
     "History equivalence with the documented machine (window arithmetic, rates vs thresholds) is numeric and is "
@@ -300,6 +300,7 @@ def run(facts, tr, rep):
     # ------------------------------------------------------------ HALF-OPEN-COUNT: sliding must not eat trial successes
     check_no_evict_in_half_open(cb, rep, "C04.HALF-OPEN-COUNT")
     check_window_dispatch(cb, rep, "C04.WINDOW-DISPATCH")
+    check_stats_partition(cb, rep, "C04.STATS-PARTITION")
     # ------------------------------------------------------------ SLIDE
     for rname in ("record_success", "record_failure"):
         rb = cb.by_role(rname)
